@@ -265,7 +265,23 @@ pub fn rand_object_kind(rng: &mut Rng, rich: bool, full: bool) -> FileCase {
     if rng.chance(1, 5) { let tl = rng.below(9) as usize; o.trailing = rng.bytes(tl); }
     // p_filesz != p_memsz
     for g in o.segs.iter_mut() { if rng.chance(1, 3) { g.memsz = rng.below(4096); } }
-    let built = o.build(&name_off);
+    let mut built = o.build(&name_off);
+    if kinds.contains(&"dynamic") && rng.chance(1, 4) {
+        // a PT_DYNAMIC segment that ends before its .dynamic section does (fewer entries): the two designate
+        // different byte ranges, and a truncation between the two ends separates them
+        if let Some(gi) = o.segs.iter().position(|g| g.p_type == PT_DYNAMIC && g.sec.is_some()) {
+            let si = o.segs[gi].sec.unwrap();
+            let (off, size) = built.sec_range.get(si).copied().unwrap_or((0, 0));
+            let esz = abi_size("Dyn", is64) as u64;
+            if size >= 2 * esz {
+                let keep = rng.range(1, size / esz - 1) * esz;
+                let _ = off;
+                o.segs[gi].filesz = keep; // stays tied to the section: covers its first `keep` bytes in every layout
+                built = o.build(&name_off);
+                kinds.push("short-ptdyn");
+            }
+        }
+    }
 
     let mut qs: Vec<String> = vec!["T".into(), "C".into(), "Y".into(), "D".into(), "d".into()];
     let vidx: Vec<String> = (0..(versym_len + 2).min(10)).map(|i| i.to_string()).collect();
@@ -414,6 +430,16 @@ pub fn gen_prefix(rng: &mut Rng, n: usize, thorough: bool) -> Vec<Case> {
             let mut v: Vec<usize> = (0..24).map(|_| rng.below(len as u64 + 1) as usize).collect();
             v.extend([0, 15, 16, 51, 52, 63, 64, len.saturating_sub(1), len]);
             for f in fc.built.fields.iter().take(40) { if rng.chance(1, 6) { v.push(f.off); v.push(f.off + f.width); } }
+            // the ends of every section and segment range, one byte before them, and a point inside
+            for r in fc.built.sec_range.iter().chain(fc.built.seg_range.iter()) {
+                if r.1 > 0 && r.0 + r.1 <= len as u64 {
+                    v.push((r.0 + r.1) as usize);
+                    v.push((r.0 + r.1 - 1) as usize);
+                    v.push((r.0 + r.1 / 2) as usize);
+                }
+            }
+            v.sort();
+            v.dedup();
             v.into_iter().filter(|x| *x <= len).collect()
         };
         for kk in ks {
@@ -424,6 +450,39 @@ pub fn gen_prefix(rng: &mut Rng, n: usize, thorough: bool) -> Vec<Case> {
         let extra = rng.range(1, 40) as usize;
         ext.extend(rng.bytes(extra));
         out.push((format!("prefix any {} {} {}", q, len, hex(&ext)), "suffix".into()));
+    }
+    // directed: files in which two headers designate different extents of one table (a PT_DYNAMIC segment that
+    // ends before its .dynamic section does), header tables first, cut at every byte between the two ends —
+    // on those prefixes one designation is readable and the other is not
+    let want = if thorough { 6 } else { 3 };
+    let mut found = 0;
+    for _ in 0..400 {
+        if found >= want { break; }
+        let mut fc = rand_object(rng, true);
+        if !fc.kinds.contains(&"short-ptdyn") { continue; }
+        fc.obj.tables_first = true;
+        fc.obj.no_shdrs = false;
+        fc.obj.trailing = vec![];
+        let name_off = fc.built.name_off.clone();
+        fc.built = fc.obj.build(&name_off);
+        let gi = match fc.obj.segs.iter().position(|g| g.p_type == PT_DYNAMIC && g.sec.is_some()) { Some(g) => g, None => continue };
+        let si = fc.obj.segs[gi].sec.unwrap();
+        let (sr, gr) = match (fc.built.sec_range.get(si), fc.built.seg_range.get(gi)) { (Some(a), Some(b)) => (*a, *b), _ => continue };
+        let len = fc.built.bytes.len();
+        if gr.0 + gr.1 >= sr.0 + sr.1 || (sr.0 + sr.1) as usize > len { continue; }
+        found += 1;
+        let h = hex(&fc.built.bytes);
+        let lo = (gr.0 + gr.1).saturating_sub(2) as usize;
+        let hi = ((sr.0 + sr.1) as usize + 1).min(len);
+        for kk in lo..=hi {
+            out.push((format!("prefix any T,C,Y,D,d {} {}", kk, h), "two-extents".into()));
+        }
+        // the same read backwards: the file cut inside the section, then extended by other bytes
+        let cut = ((gr.0 + gr.1 + sr.0 + sr.1) / 2) as usize;
+        let mut ext = fc.built.bytes[..cut].to_vec();
+        let extra = (sr.0 + sr.1) as usize - cut + rng.range(0, 8) as usize;
+        ext.extend(rng.bytes(extra));
+        out.push((format!("prefix any T,C,Y,D,d {} {}", cut, hex(&ext)), "two-extents|suffix".into()));
     }
     out
 }
